@@ -16,6 +16,7 @@ package main
 // exactly as the same operations on a database where it is alone (real code, fresh stack; PIT reads included).
 
 import (
+	"github.com/formancehq/go-libs/v5/pkg/query"
 	"context"
 	"encoding/json"
 	"fmt"
@@ -204,6 +205,20 @@ func (m *mRun) rawDump(l *mLedger) string {
 // ---------------------------------------------------------------- projections shared by observer snapshots and kept-controller reads
 type mView struct{ Txs, Accs, Logs, Vols, Agg, Schemas []string }
 
+// unfiltered drops the "[filter] ..." entries of the filtered listings
+func (v mView) unfiltered() mView {
+	keep := func(xs []string) []string {
+		var out []string
+		for _, x := range xs {
+			if !strings.HasPrefix(x, "[") {
+				out = append(out, x)
+			}
+		}
+		return out
+	}
+	return mView{Txs: v.Txs, Accs: keep(v.Accs), Logs: v.Logs, Vols: keep(v.Vols), Agg: keep(v.Agg), Schemas: v.Schemas}
+}
+
 func (v mView) diff(w mView) string { // rows of v that are not in w
 	var out []string
 	d := func(what string, a, b []string) {
@@ -282,6 +297,34 @@ func (m *mRun) viewVia(ctrl ledgercontroller.Controller) (v mView, ids []int64, 
 	}
 	for c, b := range agg {
 		v.Agg = append(v.Agg, c+"="+b.String())
+	}
+	// the filtered forms join the accounts table (partial address: address_array; metadata: the accounts row): each such
+	// sub-select has to be scoped to the ledger as well. Same for the volumes listing.
+	for _, fl := range []struct {
+		name string
+		b    query.Builder
+	}{{"users:", query.Match("address", "users:")}, {"meta", query.Or(query.Match("metadata[k1]", "v1"), query.Match("metadata[role]", "v3"), query.Match("metadata[k2]", "v2"))}} {
+		fa, err := ctrl.GetAggregatedBalances(m.ctx, common.ResourceQuery[ledger.GetAggregatedVolumesOptions]{Builder: fl.b})
+		if err != nil {
+			return v, nil, err
+		}
+		for c, b := range fa {
+			v.Agg = append(v.Agg, "["+fl.name+"] "+c+"="+b.String())
+		}
+		fv, err := listAll(m.ctx, ctrl.GetVolumesWithBalances, common.InitialPaginatedQuery[ledger.GetVolumesOptions]{PageSize: 4, Options: common.ResourceQuery[ledger.GetVolumesOptions]{Builder: fl.b}})
+		if err != nil {
+			return v, nil, err
+		}
+		for _, x := range fv {
+			v.Vols = append(v.Vols, fmt.Sprintf("[%s] %s/%s in=%s out=%s", fl.name, x.Account, x.Asset, x.Input, x.Output))
+		}
+		fas, err := listAll(m.ctx, ctrl.ListAccounts, common.InitialPaginatedQuery[any]{PageSize: 3, Options: common.ResourceQuery[any]{Builder: fl.b}})
+		if err != nil {
+			return v, nil, err
+		}
+		for _, a := range fas {
+			v.Accs = append(v.Accs, fmt.Sprintf("[%s] %s", fl.name, a.Address))
+		}
 	}
 	if v.Schemas, err = m.schemasVia(ctrl); err != nil {
 		return v, nil, err
@@ -478,6 +521,7 @@ func (m *mRun) heldReads2(record bool) {
 		rows = append(rows, L(fmt.Sprint(k.Proc), Q(k.L), L(s...)))
 		want := viewOfSnap(l.LastSnap)
 		want.Schemas = l.Schemas
+		v = v.unfiltered() // (the snapshot has no filtered listings; those are compared by the solo check)
 		extra, missing := v.diff(want), want.diff(v)
 		if extra != "" || missing != "" {
 			m.stats["held_reads_polluted"]++
